@@ -2,6 +2,7 @@ package main
 
 import (
 	"fmt"
+	"go/constant"
 	"go/token"
 	"go/types"
 	"os"
@@ -514,6 +515,10 @@ func (ex *Explorer) AtomOf(st *State, v ssa.Value) *Atom {
 			}
 			if rok {
 				ce := ex.Canon(st, l)
+				// s == "" is len(s) == 0 (one atom for both spellings)
+				if rc.Value != nil && rc.Value.Kind() == constant.String && constant.StringVal(rc.Value) == "" {
+					return &Atom{Kind: "eq", X: "len(" + ce.S + ")", C: "0", Neg: neg, Deps: ce.Deps, Reads: ce.Reads}
+				}
 				return &Atom{Kind: "eq", X: ce.S, C: constStr(rc), Neg: neg, Deps: ce.Deps, Reads: ce.Reads}
 			}
 			a, b := ex.Canon(st, l), ex.Canon(st, r)
